@@ -50,6 +50,7 @@ type attFile struct {
 	Type    byte     `json:"file_type"`
 	Chunks  [][2]int `json:"chunks_in_send_order"` // offset, length (before the first 0x1212)
 	Resend  [][2]int `json:"resent_after_first_1212,omitempty"`
+	Dense   bool     `json:"dense,omitempty"` // a large file whose content is materialised and sent completely (not a sparse giant)
 	PostDup bool     `json:"duplicate_chunk_after_completion,omitempty"` // default order only: a duplicate chunk and another 0x1212 after the file was confirmed complete
 }
 
@@ -104,7 +105,7 @@ func attBuild(p *attPlan) *attBuilt {
 	phone := ref.PhoneString(bcd)
 	_ = phone
 	for _, f := range p.Files {
-		if f.Size > attSparseFrom {
+		if f.Size > attSparseFrom && !f.Dense {
 			// a huge file of which only a few chunks are ever sent: content is defined per chunk offset, never materialised
 			b.files = append(b.files, att.File{Name: core.UnHex(f.Name), Size: uint32(f.Size)})
 			continue
@@ -131,7 +132,7 @@ func attBuild(p *attPlan) *attBuilt {
 	chunk := func(i int, c [2]int) {
 		af := b.files[i]
 		var content []byte
-		if af.Content == nil && int(af.Size) > attSparseFrom {
+		if af.Content == nil && int(af.Size) > attSparseFrom && !p.Files[i].Dense {
 			content = attContent(p.Files[i].ContSd+uint64(c[0]), c[1])
 		} else {
 			content = af.Content[c[0] : c[0]+c[1]]
